@@ -54,12 +54,18 @@ class ReorderedLowLevelWCS(BaseWCSWrapper):
     def pixel_to_world_values(self, *pixel_arrays):
         pixel_arrays = [pixel_arrays[idx] for idx in self._pixel_order_inv]
         world_arrays = self._wcs.pixel_to_world_values(*pixel_arrays)
+        # A WCS with a single world dimension returns a bare array rather than a tuple.
+        if self.world_n_dim == 1:
+            return world_arrays
         world_arrays = [world_arrays[idx] for idx in self._world_order]
         return world_arrays
 
     def world_to_pixel_values(self, *world_arrays):
         world_arrays = [world_arrays[idx] for idx in self._world_order_inv]
         pixel_arrays = self._wcs.world_to_pixel_values(*world_arrays)
+        # A WCS with a single pixel dimension returns a bare array rather than a tuple.
+        if self.pixel_n_dim == 1:
+            return pixel_arrays
         pixel_arrays = [pixel_arrays[idx] for idx in self._pixel_order]
         return pixel_arrays
 
